@@ -11,8 +11,12 @@ def selftest_determinism(bw, props):
     rc = 0
     sc = bw.Scratch("det")
     try:
-        sc.build(bw.PROPS[props[0]].get("instrument", []))
+        built = None
         for prop in props:
+            want = (tuple(bw.PROPS[prop].get("instrument", [])), tuple(bw.PROPS[prop].get("instr_flags", ())))
+            if want != built:  # each property is tested on the instrumented build its check uses
+                sc.build(list(want[0]), want[1])
+                built = want
             runs = []
             procs = []
             for gmp in (1, 4, 16):
